@@ -1,7 +1,7 @@
 """C22 -- long streams, order-hint and queue wrap-around.
 (i)  RelDist.tla: theorem (TLC, all bits <= 8) + the full table computed by the five real helper functions
      judged row by row;  (ii) Packetize.tla with reorder depth D in {2,4} << N (every slot reused);
-(iii) real streams longer than 2^7 order hints (quick) and longer than the 2048/5000-deep queues (thorough),
+(iii) real streams longer than 2^7 order hints and than the 2048-deep packetization queue (quick; 5000-deep queues in thorough),
      validated by Session.tla, Bitstream.tla (order hints modulo, DPB) and Observe.tla (recon = independent decode)."""
 import os
 
@@ -56,7 +56,12 @@ def run(res):
     add(300, {"intra_period_length": -1})
     add(270, {"intra_period_length": 31, "hierarchical_levels": 3}, "motion", 64, 64)
     add(200, {"hierarchical_levels": 2, "intra_period_length": -1}, "edges", 128, 64)
+    # past the 2048-deep packetization / reorder queues, with temporal units that straddle the physical end of the ring
+    # (five-layer mini-GOPs, key frames every 32 pictures: decode orders 2047 and 2048 share a temporal unit)
+    add(2100, {"intra_period_length": 32}, "pan", 64, 64)
     if res.tier == "thorough":
+        add(2100, {"intra_period_length": -2, "hierarchical_levels": 3}, "pan", 64, 64)
+        add(4200, {"intra_period_length": 47, "hierarchical_levels": 4}, "pan", 64, 64)
         add(2200, {"intra_period_length": -1}, "motion", 64, 64)
         add(5200, {"intra_period_length": 31, "hierarchical_levels": 3}, "motion", 64, 64)
         add(2300, {"hierarchical_levels": 4, "intra_period_length": 255, "enable_overlays": 1, "tf_level": 1}, "motion", 64, 64)
